@@ -342,6 +342,36 @@ def sinit (progs : List (List (Request Opts))) : SState Opts Factory :=
 
 end Spec
 
+/-! ## The abstract specification of the property: no cache at all
+
+"A map from (function identity incl. closure / globals / defaults binding, options) to a fresh
+conversion": a request is answered, atomically, by the conversion of exactly that function — its own
+code object (source), its own options, its own namespace view — to be instantiated with its own
+environment (`Request.env`, paired with the outcome in `results`).  There is no state besides the
+threads' progress, so garbage collection and redefinition are invisible by construction. -/
+namespace Ideal
+open Spec
+
+variable {Opts Factory : Type}
+
+def istep (T : Code → Opts → Nat → Option Factory) (ths : List (SThread Opts Factory)) (t : Tid) :
+    List (SThread Opts Factory) :=
+  match ths[t]? with
+  | none => ths
+  | some th =>
+    match th.todo with
+    | [] => ths
+    | r :: rest => ths.set t { todo := rest, results := th.results ++ [(r, T r.code r.opts r.env.sig)] }
+
+def irun (T : Code → Opts → Nat → Option Factory) (ths : List (SThread Opts Factory)) (l : List Tid) :
+    List (SThread Opts Factory) :=
+  l.foldl (istep T) ths
+
+def iinit (progs : List (List (Request Opts))) : List (SThread Opts Factory) :=
+  progs.map (fun p => { todo := p, results := [] })
+
+end Ideal
+
 /-! ## Vocabulary of the property statements (C10) -/
 section vocabulary
 variable {Opts Factory : Type}
@@ -351,6 +381,56 @@ equal without being identical). -/
 def ValInj (P : List (Request Opts)) : Prop := ∀ r ∈ P, ∀ r' ∈ P, r.code.val = r'.code.val → r.code = r'.code
 
 instance (P : List (Request Opts)) : Decidable (ValInj P) := by unfold ValInj; infer_instance
+
+/-- The thread is between requests. -/
+def Pc.isIdle : Pc Factory → Bool
+  | .idle => true
+  | _ => false
+
+/-- The death of code object `c'` in state `s` is *safe* (the dynamic, per-step form of `ValInj`):
+either no cache entry hangs on `c'`, or the entry that disappears is not shared — no function whose
+code object is distinct from but equal to `c'` is in the middle of a request, and none that is still
+alive has been converted (its factory would sit in the bucket that dies).  In particular the usual
+redefinition pattern — the old function dies, *then* the same source is exec'ed again — is safe. -/
+def GcSafe [BEq Opts] [Hashable Opts] (s : State Opts Factory) (c' : Code) : Prop :=
+  (∀ e ∈ s.outer, e.1 ≠ c') ∨
+  ∀ th ∈ s.threads,
+    (match th.todo with
+     | r :: _ => th.pc.isIdle = false → r.code.val = c'.val → r.code = c'
+     | [] => True) ∧
+    (∀ r ∈ th.todo, r.code.val = c'.val → r.code ≠ c' → ∀ e ∈ s.xlog, e.1 ≠ r.code)
+
+instance [BEq Opts] [Hashable Opts] (s : State Opts Factory) (c' : Code) : Decidable (GcSafe s c') := by
+  unfold GcSafe
+  have : ∀ th : Thread Opts Factory, Decidable (match th.todo with
+      | r :: _ => th.pc.isIdle = false → r.code.val = c'.val → r.code = c'
+      | [] => True) := by
+    intro th; split <;> infer_instance
+  infer_instance
+
+/-- One step is safe: thread steps always; a `gc` step if it is disabled (a live function uses the
+code object) or `GcSafe`. -/
+def StepSafe [BEq Opts] [Hashable Opts] (s : State Opts Factory) : Label → Prop
+  | .thr _ => True
+  | .gc c' => live s c' = true ∨ GcSafe s c'
+
+instance [BEq Opts] [Hashable Opts] (s : State Opts Factory) (l : Label) : Decidable (StepSafe s l) := by
+  cases l <;> unfold StepSafe <;> infer_instance
+
+/-- **The exact hypothesis of the once / no-error / lock theorems**: along this schedule no code
+object dies while an equal-valued distinct one shares its cache entry.  A decidable property of
+(history, schedule); implied by `ValInj` for every schedule (`schedSafe_of_valInj`). -/
+def SchedSafe [BEq Opts] [Hashable Opts] (T : Code → Opts → Nat → Option Factory) :
+    State Opts Factory → List Label → Prop
+  | _, [] => True
+  | s, l :: ls => StepSafe s l ∧ SchedSafe T (step T s l) ls
+
+instance decSchedSafe [BEq Opts] [Hashable Opts] (T : Code → Opts → Nat → Option Factory) :
+    (s : State Opts Factory) → (sched : List Label) → Decidable (SchedSafe T s sched)
+  | _, [] => isTrue trivial
+  | s, l :: ls =>
+    have := decSchedSafe T (step T s l) ls
+    by unfold SchedSafe; infer_instance
 
 /-- All requests of a history. -/
 def allReqs (progs : List (List (Request Opts))) : List (Request Opts) := progs.flatten
